@@ -11,7 +11,7 @@ import time
 from collections import Counter, deque
 
 from .. import tlc
-from ..concat_check import replay_path
+from ..concat_check import replay_path, table_deviation
 from ..graph import path_cover
 from ..pool import pmap
 from ..tlc import MachineryError
@@ -75,16 +75,9 @@ def _witness_paths(g, init):
         outs.setdefault(s, []).append(i)
 
     def state_devs(st):
-        ds = set()
         if st["s"]["broken"]:
-            return ds
-        for t in st["tables"].values():
-            if t["loose"]:
-                ds.add("StalePgIdCache")
-            elif t["pred"] != t["ideal"]:
-                ds.add("EmptyTableRaises" if t["ideal"]["out"] == "ok" and not t["ideal"]["rows"] and t["pred"]["out"] == "raises"
-                       else "TableByLabel")
-        return ds
+            return set()
+        return {d for d in (table_deviation(t) for t in st["tables"].values()) if d}
 
     found = {}
     pred = {init[0]: None}
